@@ -62,7 +62,9 @@ func runSelftest(id, repo string, w io.Writer, only string) int {
 		}
 		overlay := map[string][]byte{path: []byte(strings.Replace(string(src), m.Old, m.New, 1))}
 		var buf bytes.Buffer
+		forceLastResort = m.Kind == "must-pass"
 		code, out := runCheck(id, "quick", 0, repo, overlay, false, false, &buf, false)
+		forceLastResort = false
 		ok := false
 		switch m.Kind {
 		case "must-fail":
